@@ -23,6 +23,9 @@ op codes (a = argument list)           observation
                                        generator's recomputation of the ln-based sizing, used by the model)
  15 fpp_probe  slot bound (item h0 h1)*   [number of probes reported as contained]
  16 fork       src dst                 [1] / ERR     (dst := deserialize(serialize(src)), src kept)
+ 18 probe      slot item               [1]           (a CLONE of the filter inserts the item and is asked for it:
+                                       the crate hashes; the model answers by the no-false-negative theorem, so
+                                       filters with thousands of hash functions cost the model nothing)
  17 parse      slot bytes...           [1] / ERR / ALLOC (-997)   (slot := None; slot := deserialize(bytes) with the
                                        bytes allocated inside deserialize() counted: a peak above 64*len + 1 MiB
                                        is reported as ALLOC and the value dropped)
@@ -45,7 +48,7 @@ GEN_MODULES = [("GenBloom", ["bloom/sketch.rs", "bloom/builder.rs"],
                 ["SERIAL_VERSION", "EMPTY_FLAG_MASK", "DIRTY_BITS_VALUE", "MIN_NUM_BITS", "MIN_NUM_HASHES", "MAX_NUM_HASHES"])]
 OPNAMES = {0: "new", 1: "insert", 2: "contains", 3: "contains_and_insert", 4: "union", 5: "intersect", 6: "invert",
            7: "reset", 8: "bits_used", 9: "serialize", 10: "roundtrip", 11: "deserialize", 12: "info", 13: "is_compatible",
-           14: "new_with_accuracy", 15: "fpp_probe", 16: "fork", 17: "parse"}
+           14: "new_with_accuracy", 15: "fpp_probe", 16: "fork", 17: "parse", 18: "probe_clone"}
 NSLOTS = 6
 M64 = (1 << 64) - 1
 
@@ -486,10 +489,14 @@ def use_value(rng, ops, s, t, b):
     re-serialization, round trip, reset.  (All of it is observed as EMPTY when the image was rejected.)"""
     h = header_of(b)
     seed = h[2] if h else 0
-    cheap = h is None or h[1] <= 64            # with thousands of hash functions only a single query is made
+    # the extracted model needs ~0.5 ms per hash position: with hundreds of hash functions a single query is made, with
+    # thousands only the clone probe (op 18: the crate hashes, the model's answer is the no-false-negative theorem)
+    cheap = h is None or h[1] <= 64
     x = rng.choice(ITEMS + [rng.randint(-1000, 1000)])
     h0, h1 = hashes(x, seed)
-    ops.append((8, [s])); ops.append((12, [s])); ops.append((2, [s, x, h0, h1]))
+    ops.append((8, [s])); ops.append((12, [s])); ops.append((18, [s, x]))
+    if h is None or h[1] <= 1024:
+        ops.append((2, [s, x, h0, h1]))
     if cheap:
         ops.append((rng.choice([1, 3]), [s, x, h0, h1])); ops.append((2, [s, x, h0, h1])); ops.append((8, [s]))
     ops.append((16, [s, t]))
